@@ -108,6 +108,21 @@ def generate(seed, index, tier):
         case["forms"] = [ch.choice(FORMS) for _ in pieces[1:]]
         case["noise"] = [[ch.choice(NOISE) for _ in range(ch.int(0, 2))] if ch.coin(0.5) else [] for _ in pieces[1:]]
         case["pathobj"] = [ch.coin(0.5) for _ in range(9)]
+        if ch.coin(0.35):
+            # a control coordinate (never an end point) of a curve in any piece but the last
+            cands = []
+            for pi, piece in enumerate(pieces[:-1]):
+                for ci, cmd in enumerate(piece):
+                    u = cmd["c"].upper()
+                    nctrl = {"Q": 2, "C": 4, "S": 2}.get(u, 0)
+                    if cmd.get("zc"):
+                        continue
+                    for gi, g in enumerate(cmd["g"]):
+                        for ai in range(min(nctrl, len(g))):
+                            cands.append((pi, ci, gi, ai))
+            if cands:
+                pi, ci, gi, ai = ch.choice(cands)
+                case["twin"] = [pi, ci, gi, ai, gp.gen_number(ch, mag)]
     elif mode == "pathpath":
         k = ch.int(1, len(cmds) - 1)
         a = cmds[:k]
@@ -187,6 +202,25 @@ def _build_shape(se, spec):
 
 
 def execute(case, se, out, trace):
+    # the one-shot reference is parsed by a pristine instance of the library: nothing the long-lived instance
+    # has kept from earlier calls (of this or earlier histories) can leak into it
+    se_ref = core.fresh_se()
+    _execute_once(case, se, out, trace, se_ref)
+    tw = case.get("twin")
+    if tw and case["mode"] == "str":
+        # the same history on a twin path that differs in one control point only: it ends every piece at the same
+        # points, so whatever the first history left behind in the process is tempting to reuse
+        c2 = _copy.deepcopy(case)
+        pi, ci, gi, ai, val = tw
+        try:
+            c2["pieces"][pi][ci]["g"][gi][ai] = val
+        except (IndexError, KeyError):
+            return
+        out.count("op:twin-history")
+        _execute_once(c2, se, out, trace, se_ref, label="twin ")
+
+
+def _execute_once(case, se, out, trace, se_ref, label=""):
     V = core.Violation
     pieces = [gp.render(p, st) for p, st in zip(case["pieces"], case["styles"])]
     mode = case["mode"]
@@ -209,7 +243,7 @@ def execute(case, se, out, trace):
                     p = _noise(se, p, nz, out)
             whole = " ".join(pieces[: k + 2])
             try:
-                ref = se.Path(whole)
+                ref = se_ref.Path(whole)
                 ref_exc = None
             except Exception as e:
                 ref, ref_exc = None, type(e).__name__
@@ -261,7 +295,7 @@ def execute(case, se, out, trace):
             trace.ev("state", ob.kinds(p))
             ok, msg = ob.snaps_equal(a, b, rel=1e-9, skip_move_start=form.endswith("_path"))
             if not ok:
-                raise V("refinement", [la, fb, form, ob.kinds(ref)[-3:]], "after %s of %r to %r: %s ; incremental=%r one-shot=%r" % (form, piece, " ".join(pieces[: k + 1]), msg, _d(p), _d(ref)))
+                raise V("refinement", [la, fb, form, ob.kinds(ref)[-3:]] + (["twin"] if label else []), "%safter %s of %r to %r: %s ; incremental=%r one-shot=%r" % (label, form, piece, " ".join(pieces[: k + 1]), msg, _d(p), _d(ref)))
             out.count("probe:compared")
             # a length cached by an observer before this append must not survive it
             if any(nz == "length" for nzl in case["noise"][: k + 1] for nz in nzl):
@@ -395,6 +429,10 @@ def shrink(case):
             del c["forms"][pi if pi < len(c["forms"]) else -1]
             del c["noise"][pi if pi < len(c["noise"]) else -1]
             yield c
+    if case.get("twin"):
+        c = _copy.deepcopy(case)
+        del c["twin"]
+        yield c
     # drop noise
     for ni, nz in enumerate(case.get("noise", [])):
         if nz:
